@@ -282,13 +282,38 @@ impl Node {
 
     /// Lets every spawned task run to its next wait and lands every queued file operation.
     pub fn quiesce(&self, rounds: usize) {
-        self.block_on(async {
-            for _ in 0..rounds {
+        let round = || {
+            self.block_on(async {
                 for _ in 0..3 {
                     tokio::task::yield_now().await;
                 }
                 let _ = tokio::task::spawn_blocking(|| {}).await;
+            })
+        };
+        for _ in 0..rounds {
+            round();
+        }
+        if self.cfg.nowait {
+            // Under no-wait confirmation the persister tasks work behind the acknowledgement; how many
+            // rounds they need depends on how the pool thread's wake-ups interleave with these yields.
+            // Go on until the data directory has not changed for three consecutive rounds.
+            let mut last = tree_digest(&self.dir);
+            let mut stable = 0;
+            for _ in 0..60 {
+                round();
+                let now = tree_digest(&self.dir);
+                if now == last {
+                    stable += 1;
+                    if stable >= 3 {
+                        break;
+                    }
+                } else {
+                    stable = 0;
+                    last = now;
+                }
             }
+        }
+        self.block_on(async {
             for _ in 0..2 {
                 tokio::task::yield_now().await;
             }
